@@ -63,6 +63,7 @@ func checkC09(w *World, r *Report) {
 	monotoneAtomLint(w, r, "C09.lisp-monotone")
 	identityObjectsRule(w, r, "C09.one-object", "Atom")
 	atomConstructorRule(w, r, e, "C09.constructor")
+	variadicNotCappedRule(w, r, "C09.swap-arity", "swap!")
 	// "issued by any number of simultaneous evaluations or futures ... with no update lost": a future that issues
 	// updates runs until its creator's context ends or it is cancelled itself, not until some other future returns
 	r.include("C09.issuer-", "C10.", "an update issued by a running future is not lost because the future that started it has returned: a future's body is stopped only through its creator's context or future-cancel", checkC10, func(rule string) bool {
@@ -609,6 +610,25 @@ func checkC10(w *World, r *Report) {
 		r.undecided("C10.once", newFuture, "goroutine body", gos[0].Pos(), "cannot resolve the goroutine's function")
 		return
 	}
+	// "on another thread": the body function is started by the go statement and called from nowhere else (a
+	// body run by the creator itself blocks future-call until it is finished, and is done before anybody can
+	// cancel it)
+	for _, fn := range w.pkgFuncs("lib/concurrent") {
+		for _, b := range fn.Blocks {
+			for _, in := range b.Instrs {
+				ci, ok := in.(ssa.CallInstruction)
+				if !ok {
+					continue
+				}
+				if _, isGo := in.(*ssa.Go); isGo {
+					continue
+				}
+				if closureCallee(e, ci.Common()) == body {
+					r.bad("C10.once", fn, "plain call of the body function", in.Pos(), "the function the goroutine runs is also called directly: on that path the body is evaluated on the creator's thread (future-call does not return until it is done, and the future can never be seen running)")
+				}
+			}
+		}
+	}
 	applies := staticCallsTo(body, applyFn)
 	okOnce := len(applies) == 1 && !inLoop(body, applies[0].Block())
 	r.check(okOnce, "C10.once", body, "application of the future's function", body.Pos(), "applied exactly once, outside any loop", "the body must apply the function exactly once")
@@ -889,73 +909,82 @@ func checkC10(w *World, r *Report) {
 	}
 	futureWritersRule(w, r, e, "C10.readers")
 	cancelAnswerRule(w, r, e, "C10.cancel-answer")
-	// redeposit
+	// redeposit: wherever a function of the package takes an outcome out of a future's channels (Deref, but also a
+	// printer or a status function that peeks), it puts it back
 	nrecv := 0
-	for _, b := range deref.Blocks {
-		for _, in := range b.Instrs {
-			sel, ok := in.(*ssa.Select)
-			if !ok {
-				continue
-			}
-			for si, st := range sel.States {
-				if st.Dir != types.RecvOnly {
+	for _, dfn := range w.pkgFuncs("lib/concurrent") {
+		if isTestFunc(w, dfn) {
+			continue
+		}
+		for _, b := range dfn.Blocks {
+			for _, in := range b.Instrs {
+				sel, ok := in.(*ssa.Select)
+				if !ok {
 					continue
 				}
-				if c, ok := st.Chan.(*ssa.Call); ok && c.Call.IsInvoke() && c.Call.Method.Name() == "Done" {
-					continue
-				}
-				nrecv++
-				// the received value: extract #(2+k) where k counts receive states before si
-				k := 0
-				for j := 0; j < si; j++ {
-					if sel.States[j].Dir == types.RecvOnly {
-						k++
+				for si, st := range sel.States {
+					if st.Dir != types.RecvOnly {
+						continue
 					}
-				}
-				var recvVal ssa.Value
-				for _, ref := range *sel.Referrers() {
-					if ex, ok := ref.(*ssa.Extract); ok && ex.Index == 2+k {
-						recvVal = ex
+					if c, ok := st.Chan.(*ssa.Call); ok && c.Call.IsInvoke() && c.Call.Method.Name() == "Done" {
+						continue
 					}
-				}
-				chanKey := e.keyOf(st.Chan).String()
-				found := false
-				for _, bb := range deref.Blocks {
-					for _, in2 := range bb.Instrs {
-						if sd, ok := in2.(*ssa.Send); ok && e.keyOf(sd.Chan).String() == chanKey && recvVal != nil && sd.X == recvVal {
-							found = true
+					if _, isOutcome := outcomeChanField(st.Chan); !isOutcome && dfn != deref {
+						continue
+					}
+					nrecv++
+					// the received value: extract #(2+k) where k counts receive states before si
+					k := 0
+					for j := 0; j < si; j++ {
+						if sel.States[j].Dir == types.RecvOnly {
+							k++
 						}
 					}
-				}
-				// ... or handed to a function of the package that sends its parameter back on that channel
-				if !found && recvVal != nil {
-					for _, bb := range deref.Blocks {
+					var recvVal ssa.Value
+					for _, ref := range *sel.Referrers() {
+						if ex, ok := ref.(*ssa.Extract); ok && ex.Index == 2+k {
+							recvVal = ex
+						}
+					}
+					chanKey := e.keyOf(st.Chan).String()
+					found := false
+					for _, bb := range dfn.Blocks {
 						for _, in2 := range bb.Instrs {
-							c2, ok := in2.(*ssa.Call)
-							if !ok {
-								continue
+							if sd, ok := in2.(*ssa.Send); ok && e.keyOf(sd.Chan).String() == chanKey && recvVal != nil && sd.X == recvVal {
+								found = true
 							}
-							g := c2.Call.StaticCallee()
-							if g == nil || g.Pkg != deref.Pkg || len(g.Blocks) == 0 {
-								continue
-							}
-							for ai, a := range c2.Call.Args {
-								if a != recvVal || ai >= len(g.Params) {
+						}
+					}
+					// ... or handed to a function of the package that sends its parameter back on that channel
+					if !found && recvVal != nil {
+						for _, bb := range dfn.Blocks {
+							for _, in2 := range bb.Instrs {
+								c2, ok := in2.(*ssa.Call)
+								if !ok {
 									continue
 								}
-								for _, gb := range g.Blocks {
-									for _, gin := range gb.Instrs {
-										sd, ok := gin.(*ssa.Send)
-										if !ok || sd.X != ssa.Value(g.Params[ai]) {
-											continue
-										}
-										k := e.keyOf(sd.Chan)
-										for pj, gp := range g.Params {
-											if k.Root == ssa.Value(gp) && pj < len(c2.Call.Args) {
-												nk := e.keyOf(c2.Call.Args[pj])
-												nk.Path += k.Path
-												if nk.String() == chanKey {
-													found = true
+								g := c2.Call.StaticCallee()
+								if g == nil || g.Pkg != dfn.Pkg || len(g.Blocks) == 0 {
+									continue
+								}
+								for ai, a := range c2.Call.Args {
+									if a != recvVal || ai >= len(g.Params) {
+										continue
+									}
+									for _, gb := range g.Blocks {
+										for _, gin := range gb.Instrs {
+											sd, ok := gin.(*ssa.Send)
+											if !ok || sd.X != ssa.Value(g.Params[ai]) {
+												continue
+											}
+											k := e.keyOf(sd.Chan)
+											for pj, gp := range g.Params {
+												if k.Root == ssa.Value(gp) && pj < len(c2.Call.Args) {
+													nk := e.keyOf(c2.Call.Args[pj])
+													nk.Path += k.Path
+													if nk.String() == chanKey {
+														found = true
+													}
 												}
 											}
 										}
@@ -964,8 +993,8 @@ func checkC10(w *World, r *Report) {
 							}
 						}
 					}
+					r.check(found, "C10.redeposit", dfn, "receive from "+describeVal(e, st.Chan, 0), sel.Pos(), "the received outcome is sent back to the same channel", "an outcome taken from the channel is not put back: later derefs block forever")
 				}
-				r.check(found, "C10.redeposit", deref, "receive from "+describeVal(e, st.Chan, 0), sel.Pos(), "the received outcome is sent back to the same channel", "an outcome taken from the channel is not put back: later derefs block forever")
 			}
 		}
 	}
@@ -1213,7 +1242,7 @@ func checkC11(w *World, r *Report) {
 	// shared globals that are atoms: a swap! retried because another evaluation got in first computes what it
 	// computes alone (the library's memoize, gensym and counters rest on it)
 	r.include("C11.atom-", "C09.", "an evaluation that updates a shared atom with swap! gets f(current, args...) also when it has to retry", checkC09, func(rule string) bool {
-		return rule == "C09.rmw" || rule == "C09.install" || rule == "C09.version" || rule == "C09.guard"
+		return rule == "C09.rmw" || rule == "C09.install" || rule == "C09.version" || rule == "C09.guard" || rule == "C09.lisp-monotone"
 	})
 	// "each evaluation that only reads shared globals ... returns exactly what it returns alone": the values the
 	// globals hold are shared by all evaluations, so no builtin may write into a value it was handed
